@@ -207,6 +207,11 @@ def main():
                 for f in tmeta['functions']:
                     oid = '%s/%s/vacuity-false' % (unit, f['id'])
                     any_fail = any(k.startswith('%s/%s/' % (unit, f['id'])) for k in tatt.failed)
+                    # the solver giving up on the probe (resource limit) is also "not proved"
+                    for m in tatt.undecided:
+                        mm = re.search(r'@unit-line (\d+)', m)
+                        if mm and f['start'] <= int(mm.group(1)) <= f['end']:
+                            any_fail = True
                     if not any_fail:
                         ctx.undecided.append('vacuity guard: %s verifies `ensures false` (contradictory contract?)' % oid)
 
